@@ -66,6 +66,15 @@ Example C04_object_js_example :
   read_js (to_js false en e2) = Some (NMenuItem "enabled" (NLit "2") (NBin Add (NVar "s") (NLit "1"))).
 Proof. split; [cbn; tauto|]. repeat split; vm_compute; reflexivity. Qed.
 
+(* ... and the zero-operand "the" forms: _system.floatPrecision, _system.date('long date'), _movie.stageColor *)
+Example C04_the_forms_js_example :
+  let en := Build_env ["x"] [] [] [] [] in
+  gen_js (reify_e en 0 (EThe TSpecial 0)) 0 false = "_system.floatPrecision" /\
+  gen_js (reify_e en 0 (EThe TDateTime 5)) 0 false = "_system.date('long date')" /\
+  gen_js (reify_e en 0 (EBin Add (EThe TSystem 27) (EInt 1))) 0 false = "(_movie.stageColor + 1)" /\
+  read_js (to_js false en (EThe TSystem 27)) = Some (NProp "_movie" "stageColor").
+Proof. repeat split; vm_compute; reflexivity. Qed.
+
 (* Statements and structure.  The line emitted for a decompiled assignment / statement call is the canonical
    JavaScript of the SOURCE statement ("<target> = <expr>;", "f(args);", "fn_call(h(args));" for a handler of the
    script; a line gets its semicolon unless its text ends in a closing brace), and for every exit-free nest of
